@@ -66,12 +66,20 @@ impl Monitor for Mon {
             return None;
         }
         let keys = w.dut.session_keys();
+        // a radio error inside the attempt ends the call with an error whatever was received before it
+        let faulted = {
+            let e = w.env.borrow();
+            e.trace[rec.trace_lo..rec.trace_hi].iter().any(|ev| matches!(ev, crate::world::Ev::Fault { .. }))
+        };
+        if faulted {
+            stats.bump("probe.radio-error-during-join");
+        }
         match accept {
             None => {
                 if dels.iter().any(|d| !matches!(d.win, Win::Rx1 | Win::Rx2)) {
                     stats.bump("probe.classc-frame-during-join");
                 }
-                if rec.result != OpResult::NoJoinAccept {
+                if rec.result != OpResult::NoJoinAccept && !(faulted && rec.result == OpResult::RadioErr) {
                     return Some(Violation::new(
                         if rec.result == OpResult::JoinSuccess { "C11.joined-without-authentic-accept" } else { "C11.no-accept-outcome" },
                         &format!("{:?}", rec.result).chars().take(12).collect::<String>(),
@@ -79,12 +87,16 @@ impl Monitor for Mon {
                     ));
                 }
                 if keys.is_some() {
-                    return Some(Violation::new("C11.joined-without-authentic-accept", "state", "the attempt reported NoJoinAccept but the device holds a session".to_string()));
+                    return Some(Violation::new("C11.joined-without-authentic-accept", "state", format!("the attempt ended with {:?} without an authentic JoinAccept but the device holds a session", rec.result)));
                 }
                 stats.bump("probe.no-accept-checked");
             }
             Some(ja) => {
-                if rec.result != OpResult::JoinSuccess {
+                if faulted && rec.result == OpResult::RadioErr && keys.is_none() {
+                    // the radio failed before the accept was processed
+                    return None;
+                }
+                if rec.result != OpResult::JoinSuccess && !(faulted && rec.result == OpResult::RadioErr) {
                     return Some(Violation::new(
                         "C11.authentic-accept-not-joined",
                         &format!("{:?}", w.env.borrow().cfg.frontend),
@@ -150,6 +162,12 @@ impl Monitor for Mon {
                                     if ch.map(|c| c.freq) != Some(f) {
                                         return Some(Violation::new("C11.valid-setting-not-applied", "cflist-frequency", format!("CFList channel {} = {f} Hz is valid for {region:?} but the device has {:?}", jn + i, ch)));
                                     }
+                                    // a CFList entry defines a plain channel: RX1 on the same frequency
+                                    if let Some(c) = ch {
+                                        if c.dl_freq.is_some() && c.dl_freq != Some(f) {
+                                            return Some(Violation::new("C11.valid-setting-not-applied", "cflist-channel-stale-mapping", format!("CFList defines channel {} = {f} Hz but the device keeps the downlink mapping {:?} of the previous session for it", jn + i, c.dl_freq)));
+                                        }
+                                    }
                                     stats.bump("probe.cflist-channel-applied");
                                 } else if f == 0 {
                                     // 0 marks the position as unused in the new session's channel list
@@ -207,6 +225,10 @@ fn gen_join_txn(r: &mut Rng, cfg: &WorldCfg) -> Txn {
     let nb = cfg.frontend == Frontend::Nb;
     if nb {
         t.nb_deferred_tx = r.chance(1, 4);
+    }
+    if r.chance(1, 10) {
+        // a radio error at some call of the attempt (also after the accept has been processed)
+        t.fault = Some(Fault { pos: r.below(10) as u16, extra: 0 });
     }
     let ja = if r.chance(1, 2) { gen_ja(r, cfg.region, true) } else { gen_ja_valid(r, cfg.region) };
     match r.below(10) {
@@ -314,11 +336,14 @@ impl C11 {
                 0 | 1 => {
                     let mut t = Txn::default();
                     if r.chance(1, 2) {
-                        t.rx1.push(frame_ok(&mut r));
+                        // sometimes with commands that leave per-channel state behind for the next join to replace
+                        let f = if r.chance(1, 3) { FrameSpec::Data(frame_with_macs((0..r.range(1, 2)).map(|_| gen_mac_valid(&mut r, cfg.region)).collect(), false)) } else { frame_ok(&mut r) };
+                        t.rx1.push(f);
                     }
                     ops.push(Op::Send { port: r.range(1, 223) as u8, len: send_len(&mut r), confirmed: r.chance(1, 4), txn: t });
                 }
                 2 => ops.push(Op::SetDr(*r.pick(&rr::uplink_drs(cfg.region)))),
+                3 if r.chance(1, 3) => ops.push(Op::SaveRestore), // power cycle between attempts / sessions
                 _ => {
                     let mut t = gen_join_txn(&mut r, &cfg);
                     // now and then the application has provisioned the other set of credentials since the last attempt
